@@ -592,10 +592,18 @@ pub fn filter(r: &mut Rng, ids: &[String]) -> DltFilterConfig {
         let n = r.below(5) as usize;
         (0..n)
             .map(|_| {
-                if r.chance(3, 4) && !ids.is_empty() {
-                    r.pick(ids).clone()
-                } else {
-                    id(r)
+                let base = if r.chance(3, 4) && !ids.is_empty() { r.pick(ids).clone() } else { id(r) };
+                // configured ids that are NOT the message's id but look like it: padded with NUL or
+                // blanks, other case, one character more (the allowed set is the configured set,
+                // byte for byte)
+                match r.below(14) {
+                    0 => format!("{}\0", base),
+                    1 => format!("{} ", base),
+                    2 => format!(" {}", base),
+                    3 => base.to_uppercase(),
+                    4 => base.to_lowercase(),
+                    5 => format!("{}1", base),
+                    _ => base,
                 }
             })
             .collect()
